@@ -24,10 +24,15 @@ fn gen_points<P: Coordinate>(rng: &mut Rng, dyadic: bool) -> [P; 4] {
 }
 
 fn gen_t(rng: &mut Rng, dyadic: bool) -> f64 {
-    match rng.i(10) {
+    match rng.i(12) {
         0 => 0.0,
         1 => 1.0,
         2 => 0.5,
+        // "all t": parameters outside [0,1] extrapolate the same cubic (the identities are polynomial identities)
+        // (on the dyadic stream only, where equality is exact: the tolerance of the real stream is in units of the control polygon size,
+        // which extrapolated values exceed)
+        10 => if dyadic { [-1.0, -0.5, 1.5, 2.0][rng.i(4) as usize] } else { rng.f() },
+        11 => if dyadic { [-0.25, 1.25, 3.0, -2.0][rng.i(4) as usize] } else { rng.f() },
         _ => if dyadic { rng.dyadic(0, 1, 16) } else { rng.f() },
     }
 }
@@ -129,7 +134,18 @@ fn corr_dim<P: Coordinate>(rng: &mut Rng, dyadic: bool, stats: &mut Stats) {
 fn gen_path(rng: &mut Rng) -> SimpleBezierPath {
     let n = rng.i(7) as usize;
     let start = Coord2(rng.dyadic(-64, 64, 8), rng.dyadic(-64, 64, 8));
-    let pts: Vec<(Coord2, Coord2, Coord2)> = (0..n).map(|_| (Coord2(rng.r(-100.0, 100.0), rng.r(-100.0, 100.0)), Coord2(rng.r(-100.0, 100.0), rng.r(-100.0, 100.0)), Coord2(rng.r(-100.0, 100.0), rng.r(-100.0, 100.0)))).collect();
+    let mut pts: Vec<(Coord2, Coord2, Coord2)> = vec![];
+    let mut prev = start;
+    for _ in 0..n {
+        let p = |rng: &mut Rng| Coord2(rng.r(-100.0, 100.0), rng.r(-100.0, 100.0));
+        let sec = match rng.i(8) {
+            0 => (p(rng), p(rng), prev),        // a section that returns to its own start (teardrop / loop)
+            1 => (prev, prev, prev),            // a zero-length section
+            _ => (p(rng), p(rng), p(rng)),
+        };
+        prev = sec.2;
+        pts.push(sec);
+    }
     (start, pts)
 }
 
